@@ -8,16 +8,46 @@ class Facts:
         with open(path) as f:
             d = json.load(f)
         self.renamed, self.inlined = [], []
+        self.normaliser_errors = []
         if normalise:
-            # towards the audited function inventory of raqote; a dependency's facts are taken as they are
+            # towards the audited function inventory of raqote; a dependency's facts are taken as they are.  Each step
+            # works on a copy: a step that cannot cope with the code leaves the facts as they were (the rules then judge
+            # the un-normalised code and fail closed where they cannot read it)
             import inline
             known = inline.load_known()
-            d, self.renamed = inline.restore_renames(d, known)
-            d, adt_renames = inline.restore_adt_names(d, inline.load_known_adts())
-            self.renamed = list(self.renamed) + adt_renames
-            self.inlined = inline.inline_new_helpers(d, known)
-            self.renamed = list(self.renamed) + inline.normalise_internal_iteration(d)
-            self.renamed = list(self.renamed) + inline.dissolve_new_structs(d, inline.load_known_adts())
+            kadts = inline.load_known_adts()
+            steps = [('restore_renames', lambda x: inline.restore_renames(x, known), 'renamed'),
+                     ('restore_adt_names', lambda x: inline.restore_adt_names(x, kadts), 'renamed'),
+                     ('inline_new_helpers', lambda x: inline.inline_new_helpers(x, known), 'inlined'),
+                     ('normalise_mem_ops', inline.normalise_mem_ops, 'renamed'),
+                     ('normalise_option_filter', inline.normalise_option_filter, 'renamed'),
+                     ('normalise_internal_iteration', inline.normalise_internal_iteration, 'renamed'),
+                     ('inline_closure_calls', lambda x: inline.inline_closure_calls(x) if self.inlined else [], 'renamed'),
+                     ('dissolve_new_structs', lambda x: inline.dissolve_new_structs(x, kadts), 'renamed')]
+            skip = set()
+            while True:
+                self.renamed, self.inlined = [], []
+                failed = None
+                for name, fn, attr in steps:
+                    if name in skip:
+                        continue
+                    try:
+                        r = fn(d)
+                        if isinstance(r, tuple):
+                            d, res = r
+                        else:
+                            res = r
+                        setattr(self, attr, getattr(self, attr) + list(res or []))
+                    except Exception as e:
+                        self.normaliser_errors.append('%s: %s: %s' % (name, type(e).__name__, str(e)[:200]))
+                        failed = name
+                        break
+                if failed is None:
+                    break
+                # start again from the file without the step that could not cope (steps mutate the facts in place)
+                skip.add(failed)
+                with open(path) as f:
+                    d = json.load(f)
         self.raw = d
         self.crate = d['crate']
         self.features = d['cfg_features']
@@ -34,8 +64,12 @@ class Facts:
         self.n_bodies = d['n_bodies']
         self.outliner = None
         if normalise:
-            import outline
-            self.renamed = list(self.renamed) + outline.activate(self)
+            try:
+                import outline
+                self.renamed = list(self.renamed) + outline.activate(self)
+            except Exception as e:
+                self.outliner = None
+                self.normaliser_errors.append('outline: %s: %s' % (type(e).__name__, str(e)[:200]))
 
     def body(self, q):
         return self.bodies.get(q)
